@@ -13,17 +13,21 @@ Record item := {
    as they are (no copy), and reads them only after the last message has been built - as a publisher
    goroutine holds a built message while the other port's goroutine builds its own.  The requirement is
    per message ([Spec.C14_check_batch]): every held message must still decode to its own record. *)
-Definition case := list item.
+Record case := {
+  c_items : list item;
+  c_stray : list (list (list Z))     (* messages received on the ports that belong to no published record
+                                        (end-to-end cases that keep listening after their last record) *)
+}.
 
 Definition msg_eqb (a b : list (list Z)) : bool := list_eqb zlist_eqb a b.
 
-Definition triples (c : case) : list (record * list (list Z) * list (list Z)) :=
-  map (fun it => (c_rec it, c_recmsg it, c_summsg it)) c.
+Definition triples (l : list item) : list (record * list (list Z) * list (list Z)) :=
+  map (fun it => (c_rec it, c_recmsg it, c_summsg it)) l.
 
 (* index of the first message that differs from the model's: 2*i for the record message of record i,
    2*i+1 for its summary message; -1 when all agree *)
-Fixpoint first_diff (i : Z) (c : case) : Z :=
-  match c with
+Fixpoint first_diff (i : Z) (l : list item) : Z :=
+  match l with
   | [] => -1
   | it :: rest =>
       if negb (msg_eqb (c_recmsg it) (record_msg (c_rec it))) then 2 * i
@@ -31,13 +35,16 @@ Fixpoint first_diff (i : Z) (c : case) : Z :=
       else first_diff (i + 1) rest
   end.
 
-(* (code, first differing message).  Records outside the property's domain ([fits_b] false: channel or
-   presample count that does not fit its header field) are compared with the mirror only; the property
-   says nothing about them (and by checker_characterisation no message would be accepted for them). *)
+(* (code, first differing message; -2 = a message of no published record).  The model publishes one record
+   message and one summary message per record and nothing else.  Records outside the property's domain
+   ([fits_b] false: channel or presample count that does not fit its header field) are compared with the
+   mirror only; the property says nothing about them (and by checker_characterisation no message would be
+   accepted for them). *)
 Definition verdict (c : case) : Z * Z :=
-  let d := first_diff 0 c in
-  let chk := C14_check_batch (filter (fun t => fits_b (fst (fst t))) (triples c)) in
-  (verdict_code (d =? -1) chk, d).
+  let d := first_diff 0 (c_items c) in
+  let nostray := match c_stray c with [] => true | _ => false end in
+  let chk := C14_check_port (filter (fun t => fits_b (fst (fst t))) (triples (c_items c))) (c_stray c) in
+  (verdict_code ((d =? -1) && nostray) chk, if d =? -1 then (if nostray then -1 else -2) else d).
 
 (* compact constructors for generated files *)
 Definition ramp (a b n : Z) : list Z := map (fun i => (a + b * i) mod 65536) (zrange 0 n).
@@ -46,6 +53,9 @@ Definition ramp (a b n : Z) : list Z := map (fun i => (a + b * i) mod 65536) (zr
    bytes as the constants b00 .. bff below instead of decimal numerals (Coq reads numerals slowly).  This is
    only the notation in which the harness writes down the bytes it observed. *)
 Definition cat (chunks : list (list Z)) : list Z := concat chunks.
+(* [rep k chunk] = k copies of a chunk (the harness writes consecutive identical chunks once) *)
+Definition rep (k : Z) (chunk : list Z) : list (list Z) := repeat chunk (Z.to_nat k).
+Definition catr (runs : list (list (list Z))) : list Z := concat (concat runs).
 Definition b00 := 0. Definition b01 := 1. Definition b02 := 2. Definition b03 := 3. Definition b04 := 4. Definition b05 := 5. Definition b06 := 6. Definition b07 := 7. Definition b08 := 8. Definition b09 := 9. Definition b0a := 10. Definition b0b := 11. Definition b0c := 12. Definition b0d := 13. Definition b0e := 14. Definition b0f := 15.
 Definition b10 := 16. Definition b11 := 17. Definition b12 := 18. Definition b13 := 19. Definition b14 := 20. Definition b15 := 21. Definition b16 := 22. Definition b17 := 23. Definition b18 := 24. Definition b19 := 25. Definition b1a := 26. Definition b1b := 27. Definition b1c := 28. Definition b1d := 29. Definition b1e := 30. Definition b1f := 31.
 Definition b20 := 32. Definition b21 := 33. Definition b22 := 34. Definition b23 := 35. Definition b24 := 36. Definition b25 := 37. Definition b26 := 38. Definition b27 := 39. Definition b28 := 40. Definition b29 := 41. Definition b2a := 42. Definition b2b := 43. Definition b2c := 44. Definition b2d := 45. Definition b2e := 46. Definition b2f := 47.
@@ -71,3 +81,5 @@ Definition mk (chan : Z) (signed : bool) (pre : Z) (data : list Z) (period vpa t
                  r_ptmean := ptmean; r_peak := peak; r_rms := rms; r_avg := avg; r_resid := resid;
                  r_coefs := coefs |};
      c_recmsg := recmsg; c_summsg := summsg |}.
+Definition mkc (items : list item) (stray : list (list (list Z))) : case :=
+  {| c_items := items; c_stray := stray |}.
